@@ -226,3 +226,48 @@ def run(ctx):
     ctx.ob('C15.5', dec, 'no-use-of-chunk-before-append', not early,
            'no call consumes the raw chunk before it joined the buffer' if not early else
            '%s reads the raw chunk before it is buffered (line %d): its result depends on the chunk boundary' % (early[0].name, early[0].line), line=early[0].line if early else a0.line)
+
+    # ---------------------------------------------------------------- C15.6
+    ctx.rule('C15.6', 'payload verbatim at the source: every ParsedEvent the decoder builds stores its raw / data / event fields straight from the constructor parameters (through Some / clone only) — never the result of a validation or normalisation helper (validation works on a copy; the frame carries what the provider sent). And in OpenResponsesSsePipe::push_sse_str every chunk reaches SseDecoder::push, unconditionally and unmodified: a chunk skipped because of what it contains (blank, padding) changes where events end.')
+    TRANSP = r'::clone$|::to_string$|::to_owned$|::into$|::from$|::as_ref$|::deref$|::as_str$|::borrow$'
+
+    def leaf_sources(g, op, depth=0):
+        out = set()
+        for x in sources(g, op):
+            if x[0] == 'agg' and x[1].endswith('Option::Some') and depth < 3:
+                # look inside Some(..)
+                for (bi2, si2, st2) in g.aggregates(r'^core::option::Option$', 'Some'):
+                    if bi2 == x[2]:
+                        out |= leaf_sources(g, st2['rv']['a'][0], depth + 1)
+            else:
+                out.add(x)
+        return out
+    npe = 0
+    for p_, g in sorted(P.fns.items()):
+        if g.crate != 'rip_provider_openresponses':
+            continue
+        for (bi, si, st) in g.aggregates(r'rip_provider_openresponses::ParsedEvent$'):
+            rv = st['rv']
+            for fld in ('raw', 'data', 'event'):
+                if fld not in rv['fields']:
+                    continue
+                npe += 1
+                ls = leaf_sources(g, rv['a'][rv['fields'].index(fld)])
+                bad = sorted((x for x in ls if x[0] == 'call' and not re.search(TRANSP, x[1])), key=str)
+                ctx.ob('C15.6', g, 'parsed-payload-verbatim:' + fld, not bad,
+                       'ParsedEvent.%s %s' % (fld, 'comes from the constructor parameter (or is None)' if not bad else
+                                              'is the RESULT of %s: the frame no longer carries the payload the provider sent' % bad[0][1].rsplit('::', 1)[-1]), line=st.get('ln'))
+    ctx.floor('C15.6', 'payload fields of ParsedEvent constructions', npe, 9)
+    ps = P.body('ripd::session::OpenResponsesSsePipe::push_sse_str')
+    ctx.touch(ps)
+    dps = ps.calls(r'^rip_provider_openresponses::SseDecoder::push$')
+    if len(dps) != 1:
+        raise CheckError('C15.6: push_sse_str is expected to call SseDecoder::push once (found %d)' % len(dps))
+    dp = dps[0]
+    src = sources(ps, dp.args[1])
+    # the coroutine body reads its arguments through the captured environment (local 1)
+    verbatim = bool(src) and all(x[0] in ('param', 'upvar') or (x[0] == 'call' and re.search(TRANSP, x[1])) for x in src)
+    every = ps.must_pass([dp.bb], 0, ps.returns())
+    ctx.ob('C15.6', ps, 'every-chunk-reaches-decoder', verbatim and every,
+           'SseDecoder::push %s' % ('receives every chunk, unmodified' if verbatim and every else
+                                    ('can be SKIPPED (a return is reachable without it): a blank / padding chunk that carries a line end is lost, events merge or are never dispatched' if not every else 'receives a rewritten chunk')), line=dp.line)
